@@ -38,6 +38,7 @@ func c19Letters() []c19Letter {
 	return []c19Letter{
 		{"Query(ok)", pgproto.Query(progRows), "TDCZ", []string{"parse", "stmt"}},
 		{"Query(err)", pgproto.Query("1:!boom"), "TEZ", []string{"parse", "stmt"}},
+		{"Query(3 statements)", pgproto.Query("1:r,c=A|1:r,c=B|0:c=C"), "TDCTDCCZ", []string{"parse", "stmt", "stmt", "stmt"}},
 		{"Parse+Bind+Execute+Sync", pgproto.Cat(pgproto.Parse("", progRows), pgproto.Bind("", "", nil, nil, nil), pgproto.Execute("", 0), pgproto.Sync()), "12DCZ", []string{"parse", "stmt"}},
 		{"Bind(unknown statement), no Sync", pgproto.Bind("", "nope", nil, nil, nil), "E", nil},
 		{"Terminate", pgproto.Terminate(), "", nil},
@@ -353,7 +354,7 @@ func init() {
 		Assumptions: []string{"context cancellation is observed at the next quiescence on the retained context"},
 		Enumerate:   c19Enumerate,
 		Bounds:      func(tier string) map[string]any { return map[string]any{"history_depth": c19Depth(tier), "configurations": 60} },
-		RequiredOutcomes: []string{"served", "terminated", "middleware-failed"},
+		RequiredOutcomes: []string{"served", "terminated", "middleware-failed", "several-connections"},
 	})
 }
 
@@ -364,7 +365,77 @@ func c19Depth(tier string) int {
 	return 3
 }
 
+// c19RunServer: several connections one after the other on ONE server: middlewares and the terminate
+// hook are per connection (once for each), never once per server.
+func c19RunServer(cfg c19Config, nconn int) explore.Result {
+	var res explore.Result
+	res.Outcome = "several-connections"
+	res.Key = fmt.Sprint("server", cfg.String(), nconn)
+	mw, hook := 0, 0
+	opts := []wire.OptionFn{}
+	for i := 1; i <= cfg.M; i++ {
+		opts = append(opts, wire.SessionMiddleware(func(ctx context.Context) (context.Context, error) { mw++; return ctx, nil }))
+	}
+	if cfg.Hook != "absent" {
+		opts = append(opts, wire.TerminateConn(func(ctx context.Context) error {
+			hook++
+			if cfg.Hook == "error" {
+				return errors.New("terminate hook failed")
+			}
+			return nil
+		}))
+	}
+	rec := &script.Rec{}
+	srv, err := harness.NewServer(rec.ParseFn(), opts...)
+	if err != nil {
+		res.Engine = err.Error()
+		return res
+	}
+	defer srv.Stop()
+	for c := 1; c <= nconn; c++ {
+		conn := srv.Connect()
+		out, _ := conn.Step(pgproto.Startup("user", "alice"))
+		if !strings.HasSuffix(harness.Kinds(out), "Z") {
+			res.Fail("startup", fmt.Sprintf("connection %d: startup reply %q", c, harness.Kinds(out)))
+			return res
+		}
+		if c%2 == 0 {
+			if out, _ := conn.Step(pgproto.Query(progRows)); harness.Kinds(out) != "TDCZ" {
+				res.Fail("reply", fmt.Sprintf("connection %d: query answered %q", c, harness.Kinds(out)))
+			}
+		}
+		_, st := conn.Step(pgproto.Terminate())
+		if st != memnet.Closed {
+			res.Fail("not-closed", fmt.Sprintf("connection %d is %s after Terminate", c, st))
+		}
+		if mw != c*cfg.M {
+			res.Fail("middleware-order", fmt.Sprintf("after %d connections the %d middlewares ran %d times in total, expected %d (once per connection each)", c, cfg.M, mw, c*cfg.M))
+		}
+		wantHook := 0
+		if cfg.Hook != "absent" {
+			wantHook = c
+		}
+		if hook != wantHook {
+			res.Fail("terminate-hook", fmt.Sprintf("after %d terminated connections on one server the terminate hook was invoked %d times in total, expected %d", c, hook, wantHook))
+			break
+		}
+	}
+	res.Trans = []string{fmt.Sprintf("server|%d connections terminate|closed", nconn)}
+	return res
+}
+
 func c19Enumerate(tier string, emit explore.Emit) {
+	for m := 0; m <= 2; m++ {
+		for _, hook := range []string{"absent", "ok", "error"} {
+			for _, n := range []int{2, 3} {
+				cfg := c19Config{M: m, Hook: hook}
+				n := n
+				emit(explore.Case{Family: "several-connections", Size: n,
+					Desc: func() any { return map[string]any{"config": cfg.String(), "sequential_connections_on_one_server": n} },
+					Run:  func() explore.Result { return c19RunServer(cfg, n) }})
+			}
+		}
+	}
 	letters := c19Letters()
 	for m := 0; m <= 3; m++ {
 		for fail := 0; fail <= m; fail++ {
